@@ -1,13 +1,15 @@
 (** C15 — EDNS0 is terminated, not leaked, between client and upstream.
     Only statements, each closed by [exact] of a lemma from Proofs/Handler.v.
 
-    Reading guide. [handle truncate packs (entry ups clock xp wp mp prog) w q udp ca]
+    Reading guide. [handle truncate packs (entry ups clock xp wp mp depth prog) w q udp ca]
     is EntryHandler.Handle on the client message [q] (transport flag, client
     address) with the sequence program [prog] as entry, over ANY plugin tables
-    ([xp]: hosts / black_hole / arbitrary / ttl / forward / drop_resp, [wp]:
-    cache / redirect / ecs_handler / forward_edns0opt, [mp]: matchers), ANY
-    upstream oracles [ups] and cache clock [clock], starting from the plugin
-    state [w] (cache contents, upstream log); it returns the new state and the
+    ([xp]: hosts / black_hole / arbitrary / ttl / forward / drop_resp /
+    fallback over two sub-programs, [wp]: cache / redirect / ecs_handler /
+    forward_edns0opt / dual_selector, [mp]: matchers), ANY
+    upstream oracles [ups] and cache clock [clock], for ANY nesting bound
+    [depth] of fallback sub-sequences, starting from the plugin state [w]
+    (cache contents, upstream log, dual_selector memory); it returns the new state and the
     reply ([None] = no reply). [prog] ranges over all sequence programs (rules
     with matchers, accept / reject / return / jump / goto), so every chain and
     every order of the plugins is covered, including the same plugin twice.
@@ -30,60 +32,60 @@ Open Scope N_scope.
     ecs_handler with forward = true, or the client-subnet option an
     ecs_handler builds from its preset / the client address. No hypothesis on
     the upstreams, the program or the query. *)
-Theorem upstream_query_one_fresh_opt ups clock xp wp mp truncate packs prog w q udp ca :
+Theorem upstream_query_one_fresh_opt ups clock xp wp mp truncate packs depth prog w q udp ca :
   w_log w = [] ->
-  forall u m, In (u, m) (w_log (fst (handle truncate packs (entry ups clock xp wp mp prog) w q udp ca))) ->
+  forall u m, In (u, m) (w_log (fst (handle truncate packs (entry ups clock xp wp mp depth prog) w q udp ca))) ->
   exists o, opts_of (m_extra m) = [o] /\ o_udp o = edns0_size /\ o_do o = false /\ o_ver o = 0
             /\ forall e, In e (o_opts o) -> allowed_up wp (find_opt (m_extra q)) ca e.
-Proof. exact (upstream_query_one_fresh_opt ups clock xp wp mp truncate packs prog w q udp ca). Qed.
+Proof. exact (upstream_query_one_fresh_opt ups clock xp wp mp truncate packs depth prog w q udp ca). Qed.
 Print Assumptions upstream_query_one_fresh_opt.
 
 (** In particular: without a forwarding plugin in the table nothing of the
     client's OPT reaches an upstream. *)
-Theorem upstream_query_no_options_without_plugin ups clock xp wp mp truncate packs prog w q udp ca :
+Theorem upstream_query_no_options_without_plugin ups clock xp wp mp truncate packs depth prog w q udp ca :
   (forall i, match wp i with WCache _ | WRedirect _ => True | _ => False end) ->
   w_log w = [] ->
-  forall u m, In (u, m) (w_log (fst (handle truncate packs (entry ups clock xp wp mp prog) w q udp ca))) ->
+  forall u m, In (u, m) (w_log (fst (handle truncate packs (entry ups clock xp wp mp depth prog) w q udp ca))) ->
   exists o, opts_of (m_extra m) = [o] /\ o_opts o = [].
-Proof. exact (upstream_no_options_without_plugin ups clock xp wp mp truncate packs prog w q udp ca). Qed.
+Proof. exact (upstream_no_options_without_plugin ups clock xp wp mp truncate packs depth prog w q udp ca). Qed.
 Print Assumptions upstream_query_no_options_without_plugin.
 
 (** The reply carries exactly one OPT if and only if the client's query had one
     (and none otherwise). Upstream replies are assumed to carry at most one OPT. *)
-Theorem reply_opt_iff_client_opt ups clock xp wp mp truncate packs prog w q udp ca w' r :
+Theorem reply_opt_iff_client_opt ups clock xp wp mp truncate packs depth prog w q udp ca w' r :
   (forall u q r, ups u q = Some r -> (count_opt (m_extra r) <= 1)%nat) ->
   (forall size m, trunc_rel m (truncate size m) = true) ->
   stores_no_opt w ->
-  handle truncate packs (entry ups clock xp wp mp prog) w q udp ca = (w', Some r) ->
+  handle truncate packs (entry ups clock xp wp mp depth prog) w q udp ca = (w', Some r) ->
   count_opt (m_extra r) = match find_opt (m_extra q) with Some _ => 1%nat | None => 0%nat end.
-Proof. exact (fun H1 H2 => reply_opt_iff_client_opt ups clock xp wp mp truncate packs H1 H2 prog w q udp ca w' r). Qed.
+Proof. exact (fun H1 H2 => reply_opt_iff_client_opt ups clock xp wp mp truncate packs depth H1 H2 prog w q udp ca w' r). Qed.
 Print Assumptions reply_opt_iff_client_opt.
 
 (** ... with the client's DO bit mirrored (and it is a fresh OPT: size edns0Size, version 0). *)
-Theorem do_mirrored ups clock xp wp mp truncate packs prog w q udp ca w' r co ro :
+Theorem do_mirrored ups clock xp wp mp truncate packs depth prog w q udp ca w' r co ro :
   (forall u q r, ups u q = Some r -> (count_opt (m_extra r) <= 1)%nat) ->
   (forall size m, trunc_rel m (truncate size m) = true) ->
   stores_no_opt w ->
-  handle truncate packs (entry ups clock xp wp mp prog) w q udp ca = (w', Some r) ->
+  handle truncate packs (entry ups clock xp wp mp depth prog) w q udp ca = (w', Some r) ->
   find_opt (m_extra q) = Some co -> In ro (opts_of (m_extra r)) ->
   o_do ro = o_do co /\ o_udp ro = edns0_size /\ o_ver ro = 0.
-Proof. exact (fun H1 H2 => do_mirrored ups clock xp wp mp truncate packs H1 H2 prog w q udp ca w' r co ro). Qed.
+Proof. exact (fun H1 H2 => do_mirrored ups clock xp wp mp truncate packs depth H1 H2 prog w q udp ca w' r co ro). Qed.
 Print Assumptions do_mirrored.
 
 (** ... and none of the upstream's EDNS options unless a plugin forwards them
     explicitly: every option of the reply's OPT is an option of the OPT of some
     upstream reply AND a forward_edns0opt lists its code or it is the
     client-subnet option and an ecs_handler has forward = true. *)
-Theorem reply_options_only_forwarded ups clock xp wp mp truncate packs prog w q udp ca w' r ro e :
+Theorem reply_options_only_forwarded ups clock xp wp mp truncate packs depth prog w q udp ca w' r ro e :
   (forall u q r, ups u q = Some r -> (count_opt (m_extra r) <= 1)%nat) ->
   (forall size m, trunc_rel m (truncate size m) = true) ->
   stores_no_opt w ->
-  handle truncate packs (entry ups clock xp wp mp prog) w q udp ca = (w', Some r) ->
+  handle truncate packs (entry ups clock xp wp mp depth prog) w q udp ca = (w', Some r) ->
   In ro (opts_of (m_extra r)) -> In e (o_opts ro) ->
   (exists u q' r' o', ups u q' = Some r' /\ find_opt (m_extra r') = Some o' /\ In e (o_opts o'))
   /\ ((exists i codes, wp i = WFwdOpt codes /\ In (fst e) codes)
       \/ (exists i send preset m4 m6, wp i = WEcs true send preset m4 m6 /\ fst e = ecs_code)).
-Proof. exact (fun H1 H2 => reply_options_only_forwarded ups clock xp wp mp truncate packs H1 H2 prog w q udp ca w' r ro e). Qed.
+Proof. exact (fun H1 H2 => reply_options_only_forwarded ups clock xp wp mp truncate packs depth H1 H2 prog w q udp ca w' r ro e). Qed.
 Print Assumptions reply_options_only_forwarded.
 
 (** TTL rewriting never alters, moves or duplicates an OPT: after the ttl
@@ -98,20 +100,20 @@ Print Assumptions ttl_ops_skip_opt.
 (** Cached answers never contain an OPT in their additional section: an
     invariant of the cache contents over any query, program, upstream
     behaviour and timing (so over any sequence of queries). *)
-Theorem cache_stores_no_opt ups clock xp wp mp truncate packs prog w q udp ca :
+Theorem cache_stores_no_opt ups clock xp wp mp truncate packs depth prog w q udp ca :
   stores_no_opt w ->
-  stores_no_opt (fst (handle truncate packs (entry ups clock xp wp mp prog) w q udp ca)).
-Proof. exact (cache_stores_no_opt ups clock xp wp mp truncate packs prog w q udp ca). Qed.
+  stores_no_opt (fst (handle truncate packs (entry ups clock xp wp mp depth prog) w q udp ca)).
+Proof. exact (cache_stores_no_opt ups clock xp wp mp truncate packs depth prog w q udp ca). Qed.
 Print Assumptions cache_stores_no_opt.
 
 (** ... and what the plugin chain leaves in R() — cached, TTL-rewritten,
     redirected or fresh from an upstream — has no OPT in its additional section. *)
-Theorem response_has_no_opt ups clock xp wp mp prog w q udp ca c w' err r :
+Theorem response_has_no_opt ups clock xp wp mp depth prog w q udp ca c w' err r :
   (forall u q r, ups u q = Some r -> (count_opt (m_extra r) <= 1)%nat) ->
   stores_no_opt w ->
-  entry ups clock xp wp mp prog (new_context q udp ca, w) = ((c, w'), err) ->
+  entry ups clock xp wp mp depth prog (new_context q udp ca, w) = ((c, w'), err) ->
   c_resp c = Some r -> opts_of (m_extra r) = [].
-Proof. exact (fun H => response_has_no_opt ups clock xp wp mp H prog w q udp ca c w' err r). Qed.
+Proof. exact (fun H => response_has_no_opt ups clock xp wp mp depth H prog w q udp ca c w' err r). Qed.
 Print Assumptions response_has_no_opt.
 
 (** Truncation keeps the OPT: any result allowed by the contract of
@@ -120,6 +122,38 @@ Theorem truncate_keeps_one_opt m m' :
   trunc_rel m m' = true -> (count_opt (m_extra m) <= 1)%nat -> opts_of (m_extra m') = opts_of (m_extra m).
 Proof. exact (trunc_rel_keeps_opts m m'). Qed.
 Print Assumptions truncate_keeps_one_opt.
+
+(** Context.Copy: a copy agrees with the original on everything a plugin can
+    read and is a value of its own (Judge.C15's CCopy cases check on the real
+    structure that no later write to one shows in the other). *)
+Theorem copy_isolated c w :
+  let c' := fst (ctx_copy (c, w)) in
+  c_query c' = c_query c /\ c_client_opt c' = c_client_opt c /\ c_resp c' = c_resp c
+  /\ c_resp_opt c' = c_resp_opt c /\ c_upstream_opt c' = c_upstream_opt c
+  /\ c_from_udp c' = c_from_udp c /\ c_client_addr c' = c_client_addr c.
+Proof. exact (copy_isolated c w). Qed.
+Print Assumptions copy_isolated.
+
+(** fallback hands back a response and nothing else: options its branches
+    forwarded into the response OPTs of their context copies never reach the
+    client's OPT; the query is untouched. For any way of running sub-sequences. *)
+Theorem fallback_keeps_resp_opt runsub pr se sb c w :
+  c_resp_opt (fst (fst (fallback_exec runsub pr se sb (c, w)))) = c_resp_opt c
+  /\ c_query (fst (fst (fallback_exec runsub pr se sb (c, w)))) = c_query c.
+Proof. exact (fallback_keeps_resp_opt runsub pr se sb c w). Qed.
+Print Assumptions fallback_keeps_resp_opt.
+
+(** dual_selector ends with the response OPT it was given (when it blocks) or
+    with the one of ONE run of the rest of the chain on the unchanged query
+    (the preferred type, or the sub-run of the original query it lets pass):
+    never with anything the reference query's sub-run wrote into its copy. *)
+Theorem dual_resp_opt_adopted inst v6 k c w :
+  let out := dual_exec inst v6 k (c, w) in
+  c_resp_opt (fst (ost out)) = c_resp_opt c
+  \/ (exists s, c_resp_opt (fst (ost out)) = c_resp_opt (fst (ost (k s)))
+                /\ c_query (fst s) = c_query c /\ c_resp_opt (fst s) = c_resp_opt c).
+Proof. exact (dual_resp_opt_adopted inst v6 k c w). Qed.
+Print Assumptions dual_resp_opt_adopted.
 
 (** * Not vacuous *)
 
@@ -147,7 +181,7 @@ Definition q0 : msg :=
 
 Example c15_nonvacuous :
   let res := handle (fun _ m => m) (fun _ => true)
-                    (entry up0 (fun _ => Some 0) (fun _ => XForward 0) wp0 (fun _ => MHasResp) prog0)
+                    (entry up0 (fun _ => Some 0) (fun _ => XForward 0) wp0 (fun _ => MHasResp) 1 prog0)
                     empty_world q0 true None in
   map (fun x => opts_of (m_extra (snd x))) (w_log (fst res)) = [[Opt 1200 false 0 0 [(10, 2); (8, 1)]]]
   /\ option_map (fun r => opts_of (m_extra r)) (snd res) = Some [Opt 1200 true 0 0 [(8, 5); (10, 7)]]
@@ -157,13 +191,13 @@ Proof. split; [vm_compute; reflexivity|]. split; [vm_compute; reflexivity|]. int
 (** The same run through the theorems (their hypotheses hold for [up0] and the identity). *)
 Example c15_theorems_apply w' r :
   handle (fun _ m => m) (fun _ => true)
-         (entry up0 (fun _ => Some 0) (fun _ => XForward 0) wp0 (fun _ => MHasResp) prog0)
+         (entry up0 (fun _ => Some 0) (fun _ => XForward 0) wp0 (fun _ => MHasResp) 1 prog0)
          empty_world q0 true None = (w', Some r) ->
   count_opt (m_extra r) = 1%nat.
 Proof.
   intro H.
   exact (reply_opt_iff_client_opt up0 (fun _ => Some 0) (fun _ => XForward 0) wp0 (fun _ => MHasResp)
-           (fun _ m => m) (fun _ => true) prog0 empty_world q0 true None w' r up0_ok id_contract
+           (fun _ m => m) (fun _ => true) 1%nat prog0 empty_world q0 true None w' r up0_ok id_contract
            (fun i k v (F : In (k, v) []) => match F with end) H).
 Qed.
 
@@ -175,3 +209,29 @@ Example c15_contract_example :
     (Judge.C15.mk 1 33664 0 [Judge.C15.Q Judge.C15.n0 16 1]
        [Judge.C15.R Judge.C15.n0 16 1 300 1] [] [Judge.C15.O 1200 true 0 0 []]) = true.
 Proof. vm_compute. reflexivity. Qed.
+
+(** [prefer_ipv4; forward_edns0opt 10; forward] on an AAAA query with OPT, with
+    an upstream whose A reply has no A record and cookie 100 and whose AAAA
+    reply has cookie 200: both sub-queries reach the upstream, the client gets
+    exactly the cookie of the reply it is served. *)
+Definition up2 (_ : N) (q : msg) : option msg :=
+  match m_question q with
+  | qu :: _ =>
+    if qtype qu =? 28
+    then Some (with_extra (with_answer (with_question (set_reply q) (m_question q)) [Judge.C15.R [] 28 1 300 9])
+                          [OPT (Opt 1232 false 0 0 [(10, 200)])])
+    else Some (with_extra (with_question (set_reply q) (m_question q)) [OPT (Opt 1232 false 0 0 [(10, 100)])])
+  | [] => None
+  end.
+Definition wp2 (i : N) : wplugin := nth (N.to_nat i) [WDual 0 false; WFwdOpt [10]] (WCache 0).
+Definition prog2 : rules := RCons (Rule [] (Wrap 0)) (RCons (Rule [] (Wrap 1)) (RCons (Rule [] (Exec 0)) RNil)).
+Definition q2 : msg :=
+  Judge.C15.mk 5 256 0 [Judge.C15.Q Judge.C15.n0 28 1] [] [] [Judge.C15.O 4096 true 0 0 [(10, 2)]].
+
+Example c15_dual_selector_nonvacuous :
+  let res := handle (fun _ m => m) (fun _ => true)
+                    (entry up2 (fun _ => Some 0) (fun _ => XForward 0) wp2 (fun _ => MHasResp) 1 prog2)
+                    empty_world q2 false None in
+  length (w_log (fst res)) = 2%nat
+  /\ option_map (fun r => opts_of (m_extra r)) (snd res) = Some [Opt 1200 true 0 0 [(10, 200)]].
+Proof. split; vm_compute; reflexivity. Qed.
